@@ -166,7 +166,7 @@ def _other_encodings(cfg):
     return out
 
 
-def gen_retraining(rng, kind=None, cli=False):
+def gen_retraining(rng, kind=None, cli=False, variant=None):
     """A HISTORY of trainings onto one ruleset name: {"steps": [cfg, ..., target cfg], "variants": [...]}.
     The last step is the ruleset under test; the earlier ones are what the directory held before: the same list with
     another n-gram size (4 then 5, 3 then 4, ...), another alphabet size, another encoding, another list, everything
@@ -180,6 +180,8 @@ def gen_retraining(rng, kind=None, cli=False):
     for _ in range(n_prev):
         cur = steps[0]
         v = rng.choice(RETRAIN_VARIANTS)
+        if variant is not None and len(steps) == 1:
+            v = variant                 # (the draw above is kept: the same stream of random numbers either way)
         if v == "encoding" and not _other_encodings(cur):
             v = "ngram"
         if v == "ngram":
